@@ -272,19 +272,20 @@ def run(ctx):
 
     # ------------------------------------------------------------------ C03.YDAY
     init = prog.method(cls.qualname, "__init__", "C03.YDAY")
-    tbl = None
+    tbls = []
     for n in walk_local(init.node):
-        if isinstance(n, ast.Assign) and isinstance(n.value, ast.List) and len(n.value.elts) == 12 \
-                and all(isinstance(e, ast.Constant) for e in n.value.elts):
-            tbl = [e.value for e in n.value.elts]
+        if isinstance(n, (ast.List, ast.Tuple)) and len(n.elts) == 12 and all(isinstance(e, ast.Constant) and isinstance(e.value, int) for e in n.elts):
+            tbls.append([e.value for e in n.elts])
+    if not tbls:
+        raise AnalysisError("C03.YDAY", init.qualname, "12-entry year-day table not found")
     import calendar
     want, acc = [], 0
     for m in range(1, 13):
         acc += calendar.monthrange(2001, m)[1]
         want.append(acc)
     want[-1] = 366
-    ctx.ob("C03.YDAY", init, "the year-day table is the cumulative common-year month lengths (last entry 366)", tbl == want,
-           construct="ydayidx", detail="" if tbl == want else "found %s expected %s" % (tbl, want), analysis="CONST vs stdlib calendar")
+    ctx.ob("C03.YDAY", init, "the year-day table is the cumulative common-year month lengths (last entry 366)", all(t == want for t in tbls),
+           construct="ydayidx", detail="" if all(t == want for t in tbls) else "found %s expected %s" % (tbls, want), analysis="CONST vs stdlib calendar")
 
     # ------------------------------------------------------------------ C03.WEEKDAY
     check_weekday_table(ctx, add, rname)
